@@ -116,6 +116,16 @@ func (m *RWMutex) RLock() {
 	<-w.ch
 }
 
+// Held reports whether the lock is held by anyone (bubble mode; for invariant evaluation at
+// quiescent moments only).
+func (m *RWMutex) Held() bool {
+	m.mu.Lock()
+	defer m.mu.Unlock()
+	return m.writer || m.readers > 0
+}
+
+func (m *Mutex) Held() bool { return m.rw.Held() }
+
 func (m *RWMutex) RUnlock() {
 	if !m.inBubble() {
 		m.real.RUnlock()
